@@ -91,14 +91,17 @@ CLAIMED = {
    design="6/C11", engine="coq-quantum",
    technique="Coq proof (abstract *-ring, exact cyclotomic instance) + correspondence vs eval and pytket"),
  "C14": dict(
-   text="45 theorems about a Gallina model of subs / lambdify / free_symbols on parametrised boxes and diagrams of the "
+   text="54 theorems about a Gallina model of subs / lambdify / free_symbols on parametrised boxes and diagrams of the "
         "tensor, circuit and zx classes (phases as canonical multivariate polynomials over Q): substitution preserves dom, "
         "cod, kinds and flags; free symbols are exactly those of the boxes; substituting all symbols closes the diagram; "
         "subs commutes with any evaluation that depends on parameters through their values; lambdify agrees with subs "
-        "semantically; plus _refuted witnesses for the five remaining known findings F11a,e,f,g,k.  Tie to /repo: exact "
+        "semantically AND syntactically on canonical data (every operation of the expression model returns canonical "
+        "forms, canonical forms are unique - identity theorem for multivariate polynomials over Q with an explicit "
+        "non-vanishing point - and everything decoded from the wire is canonical); free_symbols of an expression is "
+        "exact in both directions (a reported symbol really changes the value somewhere); plus _refuted witnesses for the five remaining known findings F11a,e,f,g,k.  Tie to /repo: exact "
         "syntactic comparison of subs / lambdify results and free symbols, sympy-based evaluation oracle.",
    design="6/C14", engine="coq-param",
-   technique="Coq proof (polynomial normal forms) + exact syntactic correspondence + sympy evaluation oracle"),
+   technique="Coq proof (polynomial canonical forms, uniqueness by the identity theorem) + exact syntactic correspondence + sympy evaluation oracle"),
  "C17": dict(
    text="13 theorems about a Gallina model of zx.Diagram.to_pyzx / from_pyzx (graph = vertices, typed edges, ordered "
         "inputs/outputs): the exported graph has one vertex per boundary wire and spider, one edge per wire, Hadamard "
